@@ -157,3 +157,60 @@ def stepForwardSpec (latency step : Nat) (pre post : Cell) : Bool :=
     else post == { pre with e := rest ++ [o] }
 
 end Pops
+
+namespace Pops
+
+/-! ### Host movement (C17, C01, C02), judged on observed pre / post states.
+    Added for the driver; the equations are the conclusions of `C17_movement_amount`
+    (Props/C17.lean) and of the definition of `moveHosts`. -/
+
+/-- C17 "drawn without replacement from the source cell's classes" / C02 "hosts taken out of a cell
+    never exceed what the cell contained": no class and no cohort of the source grows, none loses
+    more than it held. -/
+def moveDrawnFromSource (src src' : Cell) : Bool :=
+  let within (x x' : Int) : Bool := decide (0 ≤ x') && decide (x' ≤ x)
+  within src.s src'.s && within src.i src'.i && within src.r src'.r && within src.te src'.te &&
+  src'.e.length == src.e.length && (List.zip src.e src'.e).all (fun p => within p.1 p.2) &&
+  src'.mort.length == src.mort.length && (List.zip src.mort src'.mort).all (fun p => within p.1 p.2)
+
+/-- C17 "together with their cohort membership, to the destination": what the source loses in each
+    class and in each exposed / mortality cohort is what the destination gains (the two cohort
+    equations are literally the last two conclusions of `C17_movement_amount`). -/
+def moveMembershipOK (src dst src' dst' : Cell) : Bool :=
+  decide (src'.s + dst'.s = src.s + dst.s) && decide (src'.i + dst'.i = src.i + dst.i) &&
+  decide (src'.r + dst'.r = src.r + dst.r) && decide (src'.te + dst'.te = src.te + dst.te) &&
+  addL src'.e dst'.e == addL src.e dst.e && addL src'.mort dst'.mort == addL src.mort dst.mort
+
+/-- One row of the movement table on the per-cell host totals: `min requested present` hosts leave
+    the source (flat index `row.1`) and reach the destination (`row.2.1`). -/
+def applyMoveTotals (tot : List Int) (row : Nat × Nat × Int) : List Int :=
+  let m := min row.2.2 (tot[row.1]!)
+  let t1 := tot.set row.1 (tot[row.1]! - m)
+  t1.set row.2.1 (t1[row.2.1]! + m)
+
+/-- C17 for several rows due in one step: the rows are applied once each, in table order, each
+    moving `min (requested, hosts present)`; the host total of every cell afterwards is therefore
+    determined (which classes the hosts come from is not). -/
+def movementTotals (tot : List Int) (rows : List (Nat × Nat × Int)) : List Int :=
+  rows.foldl applyMoveTotals tot
+
+/-- Destinations (flat indices) of the rows that move at least one host, in table order. -/
+def movementArrivals (tot : List Int) (rows : List (Nat × Nat × Int)) : List Nat :=
+  (rows.foldl (fun (acc : List Int × List Nat) row =>
+    let m := min row.2.2 (acc.1[row.1]!)
+    (applyMoveTotals acc.1 row, if m > 0 then acc.2 ++ [row.2.1] else acc.2)) (tot, [])).2
+
+/-- Position-wise sum of cohort vectors. -/
+def sumCohorts : List (List Int) → List Int
+  | [] => []
+  | x :: xs => xs.foldl addL x
+
+/-- C17 / C01 over any number of host moves: hosts are relocated together with their class and
+    cohort membership, so every class total and every cohort total over the landscape is kept. -/
+def landClassesConserved (pre post : List Cell) : Bool :=
+  decide (sumL (post.map (·.s)) = sumL (pre.map (·.s))) && decide (sumL (post.map (·.i)) = sumL (pre.map (·.i))) &&
+  decide (sumL (post.map (·.r)) = sumL (pre.map (·.r))) && decide (sumL (post.map (·.te)) = sumL (pre.map (·.te))) &&
+  sumCohorts (post.map (·.e)) == sumCohorts (pre.map (·.e)) &&
+  sumCohorts (post.map (·.mort)) == sumCohorts (pre.map (·.mort))
+
+end Pops
